@@ -204,3 +204,23 @@ def zombie_probe():
             os.waitpid(pid, 0)
         except ChildProcessError:
             pass
+
+
+def default_signals():
+    """preexec_fn for sacrificial children: every signal disposition back to
+    the default and nothing blocked, so that a child dies of the signal it is
+    sent whatever the harness inherited (nohup ignores SIGHUP, shells and CI
+    runners ignore or block others)."""
+    import signal
+
+    for n in range(1, signal.NSIG):
+        if n in (signal.SIGKILL, signal.SIGSTOP):
+            continue
+        try:
+            signal.signal(n, signal.SIG_DFL)
+        except (OSError, ValueError, RuntimeError):
+            pass
+    try:
+        signal.pthread_sigmask(signal.SIG_SETMASK, set())
+    except (AttributeError, OSError):
+        pass
